@@ -25,6 +25,19 @@ def handleC14 (args : List String) : String :=
     match runTracker locate ⟨"", "", false, "", 0⟩ frames with
     | .ok res => "ok " ++ " ".intercalate (res.map fun p => p.1 ++ ":" ++ p.2)
     | .error e => "err " ++ e
+  | ["extract", src, coll, n] =>
+    -- `c14 extract <none|func|k> <0|1: state is a collection> <number of fields>`: index of the selected field
+    match n.toNat? with
+    | some n =>
+      let source : Option Source := if src == "none" then some .asIs else if src == "func" then some .func else src.toNat?.map .index
+      match source with
+      | some sr =>
+        -- fields are named by their index; the callable picks the last one
+        match extract sr (fun fs => fs.getLastD 0) ⟨coll == "1", List.range n⟩ with
+        | .ok k => s!"ok {k}"
+        | .error e => "err " ++ e
+      | none => "bad-op"
+    | none => "bad-op"
   | "ls" :: rest =>
     let frames := pairUp rest
     let ls : String → Except String String := fun f =>
